@@ -136,3 +136,66 @@ Section TextBisim.
     constructor; [apply start_in_range, Hclosed|constructor].
   Qed.
 End TextBisim.
+
+(* ---------------------------------------------------------------- character classes and maximal munch *)
+(* a regular expression that consumes exactly one character satisfying P: what the grammar's letter classes compile to *)
+Definition is_class (r : re) (P : N -> bool) : Prop :=
+  forall s (k : text -> option text), rm r s k = match s with x :: s' => if P x then k s' else None | [] => None end.
+
+Lemma class_char c : is_class (RChar c) (fun x => N.eqb x c).
+Proof. intros [|x s] k; reflexivity. Qed.
+Lemma class_range lo hi : is_class (RRange lo hi) (fun x => N.leb lo x && N.leb x hi).
+Proof. intros [|x s] k; reflexivity. Qed.
+Lemma class_alt a b P Q : is_class a P -> is_class b Q -> is_class (RAlt a b) (fun x => P x || Q x).
+Proof.
+  intros Ha Hb [|x s] k; cbn [rm]; rewrite Ha, Hb; [reflexivity|].
+  destruct (P x), (Q x); cbn [orb]; destruct (k s); reflexivity.
+Qed.
+
+(* which expressions are classes, decided syntactically *)
+Fixpoint class_pred (r : re) : option (N -> bool) :=
+  match r with
+  | RChar c => Some (fun x => N.eqb x c)
+  | RRange lo hi => Some (fun x => N.leb lo x && N.leb x hi)
+  | RAlt a b => match class_pred a, class_pred b with Some P, Some Q => Some (fun x => P x || Q x) | _, _ => None end
+  | _ => None
+  end.
+Lemma class_pred_sound r : forall P, class_pred r = Some P -> is_class r P.
+Proof.
+  induction r as [|c|lo hi|a IHa b IHb|a IHa b IHb|a IHa|a IHa]; intros P H; cbn in H; try discriminate.
+  - injection H as <-. apply class_char.
+  - injection H as <-. apply class_range.
+  - destruct (class_pred a) as [Pa|]; [|discriminate]. destruct (class_pred b) as [Pb|]; [|discriminate].
+    injection H as <-. apply class_alt; [apply IHa|apply IHb]; reflexivity.
+Qed.
+
+Fixpoint drop_while (P : N -> bool) (s : text) : text :=
+  match s with x :: s' => if P x then drop_while P s' else s | [] => [] end.
+
+(* (class)+ takes the longest run of class characters: Python's greedy `+` on a one-character body never gives one back
+   when the continuation accepts everything *)
+Theorem plus_class_munch r P : is_class r P -> forall s,
+  rmatch (RPlus r) s = match s with x :: s' => if P x then Some (drop_while P s') else None | [] => None end.
+Proof.
+  intros Hc s. unfold rmatch. cbn [rm].
+  set (loop := fix loop (n : nat) (s0 : text) {struct n} : option text :=
+         rm r s0 (fun s' => match n with
+                            | O => Some s'
+                            | S n' => if Nat.ltb (length s') (length s0)
+                                      then match loop n' s' with Some r0 => Some r0 | None => Some s' end
+                                      else Some s'
+                            end)).
+  assert (H : forall n s0, length s0 <= n ->
+            loop n s0 = match s0 with x :: s' => if P x then Some (drop_while P s') else None | [] => None end).
+  { induction n as [|n IH]; intros s0 Hl.
+    - destruct s0 as [|x s']; [|cbn in Hl; lia]. unfold loop. rewrite Hc. reflexivity.
+    - destruct s0 as [|x s']; [unfold loop; rewrite Hc; reflexivity|].
+      change (loop (S n) (x :: s')) with
+        (rm r (x :: s') (fun s'' => if Nat.ltb (length s'') (length (x :: s'))
+                                    then match loop n s'' with Some r0 => Some r0 | None => Some s'' end else Some s'')).
+      rewrite Hc. destruct (P x); [|reflexivity].
+      assert (Hlt : Nat.ltb (length s') (length (x :: s')) = true) by (apply Nat.ltb_lt; cbn; lia). rewrite Hlt.
+      rewrite (IH s') by (cbn in Hl; lia).
+      destruct s' as [|y s'']; [reflexivity|]. cbn [drop_while]. destruct (P y); reflexivity. }
+  apply H. lia.
+Qed.
